@@ -70,6 +70,9 @@ func init() {
 	mutant(&Mutant{Name: "c05-coordinates-flushed-mid-command", Property: "C05", File: "svg/pathdata.go",
 		Old: "\t\t} else if n := parse.Number(b[i:]); n > 0 {\n", New: "\t\t} else if n := parse.Number(b[i:]); n > 0 {\n\t\t\tif len(p.coords) == 840 {\n\t\t\t\tj += p.copyInstruction(b[j:], cmd)\n\t\t\t\tp.coords = p.coords[:0]\n\t\t\t\tp.coordFloats = p.coordFloats[:0]\n\t\t\t}\n",
 		Rule: "R05.15", Construct: "at a command boundary"})
+	mutant(&Mutant{Name: "c05-foreignobject-attributes-copied-raw", Property: "C05", File: "svg/svg.go",
+		Old: "\t\t\tw.Write(xml.EscapeAttrVal(&attrByteBuffer, t.AttrVal))\n\t\t\ttb.Shift()\n\t\t\tcontinue\n", New: "\t\t\t_ = attrByteBuffer\n",
+		Rule: "R05.16", Construct: "svg.printTag/raw write"})
 	mutant(&Mutant{Name: "c05-drop-title", Property: "C05", File: "svg/svg.go",
 		Old: "\t\t\tif tag == Metadata {\n\t\t\t\tt.Data = nil\n", New: "\t\t\tif tag == Metadata {\n\t\t\t\tt.Data = nil\n\t\t\t} else if tag == Style {\n\t\t\t\tt.Data = nil\n",
 		Rule: "R05.3", Construct: "element dropped"})
@@ -92,6 +95,7 @@ func runC05(c *Ctx) {
 	c.r0513(pk)
 	c.r0514(pk)
 	c.r0515(pk)
+	c.r0516(pk)
 	// Inline decides whether the root element keeps its xmlns: it is a per-call fact and must not be written
 	// into the shared option struct (a later standalone document would lose its namespace)
 	c.alsoUnder(map[string]string{"R13.1": "R05.11"}, func(construct string) bool { return strings.Contains(construct, "svg.") }, func() { c.r131() })
@@ -1374,4 +1378,98 @@ func (c *Ctx) r0515(pk *packages.Package) {
 	}
 	c.R.Floor(rule, "copyInstruction calls in ShortenPathData", n, 2)
 	c.R.Floor(rule, "copyInstruction calls inside the scanning loop", inLoop, 1)
+}
+
+// R05.16: a token that was normalised in place is not written raw.
+func (c *Ctx) r0516(pk *packages.Package) {
+	const rule = "R05.16"
+	c.R.Rule(rule, "svg.(*TokenBuffer).read normalises the value of every quoted attribute in place (parse.ReplaceMultipleWhitespaceAndEntities on a sub-slice of the token's Data), so the raw bytes of an attribute token are no longer what the input said: the tail of the old value is still there behind the shortened one. In package svg no write of <token>.Data can therefore be reached for an attribute token — every w.Write(t.Data) lies in a case of the token-kind switch other than AttributeToken, or behind a test that excludes it; attributes are printed from Text and AttrVal. (`<foreignObject><div title=\"a   b\">` was copied raw as `title=\"a b b\"`)")
+	info := pk.TypesInfo
+	// premise: read() rewrites AttrVal in place
+	premise := false
+	if rd := load.Func(pk, "TokenBuffer.read"); rd != nil {
+		for _, call := range findCalls(info, rd.Body, false, load.ParseMod+".ReplaceMultipleWhitespaceAndEntities", load.ParseMod+".ReplaceMultipleWhitespace", load.ParseMod+".ReplaceEntities") {
+			if strings.HasSuffix(nospace(str(call.Args[0])), ".AttrVal") {
+				premise = true
+			}
+		}
+	}
+	if !premise {
+		c.R.OK(rule, "svg.TokenBuffer.read/attribute values rewritten in place", "-", "not rewritten in place any more: raw attribute bytes are intact, nothing to check")
+		return
+	}
+	n := 0
+	for _, fd := range load.FuncDecls(pk) {
+		if fd.Body == nil {
+			continue
+		}
+		g := c.graph(pk, fd)
+		for _, y := range g.Nodes {
+			a := y.Ast()
+			if a == nil || y.Kind != flow.KStmt {
+				continue
+			}
+			flowInspectCalls(a, func(call *ast.CallExpr) {
+				sel, ok := call.Fun.(*ast.SelectorExpr)
+				if !ok || sel.Sel.Name != "Write" || len(call.Args) != 1 {
+					return
+				}
+				arg, ok := ast.Unparen(call.Args[0]).(*ast.SelectorExpr)
+				if !ok || arg.Sel.Name != "Data" {
+					return
+				}
+				tn := namedTypeName(info.TypeOf(arg.X))
+				if !strings.HasSuffix(tn, "/svg.Token") {
+					return
+				}
+				n++
+				tok := nospace(str(arg.X))
+				excluded := false
+				for _, f := range g.DomFacts(y) {
+					switch f.Test.Kind {
+					case flow.KCase:
+						if f.Value && strings.HasSuffix(nospace(str(f.Test.Tag)), ".TokenType") && !strings.Contains(str(f.Test.Expr), "AttributeToken") {
+							// a positive case of another kind; a clause listing several kinds is a chain of case tests, any of them is positive here
+							excluded = true
+						}
+					case flow.KCond:
+						s := nospace(str(f.Test.Expr))
+						if !f.Value && s == tok+".TokenType==xml.AttributeToken" || f.Value && (s == tok+".TokenType!=xml.AttributeToken" || strings.HasPrefix(s, tok+".TokenType==xml.") && !strings.HasSuffix(s, "AttributeToken")) {
+							excluded = true
+						}
+					}
+				}
+				if !excluded {
+					// the attribute kind is handled by a case that does not fall through to this write
+					var attrCases []*flow.Node
+					for _, k := range g.Nodes {
+						if k.Kind == flow.KCase && nospace(str(k.Tag)) == tok+".TokenType" && strings.Contains(str(k.Expr), "AttributeToken") {
+							for _, sc := range k.Succs {
+								if sc.Kind == flow.KTrue {
+									attrCases = append(attrCases, sc)
+								}
+							}
+						}
+					}
+					if len(attrCases) > 0 {
+						redefines := func(q *flow.Node) bool {
+							if as, ok := q.Stmt.(*ast.AssignStmt); ok && q.Kind == flow.KStmt {
+								for _, l := range as.Lhs {
+									if nospace(str(l)) == tok {
+										return true
+									}
+								}
+							}
+							return false
+						}
+						if g.Path(flow.Search{From: attrCases, Goal: func(q *flow.Node) bool { return q == y }, Avoid: redefines}) == nil {
+							excluded = true
+						}
+					}
+				}
+				c.R.Check(excluded, rule, fmt.Sprintf("svg.%s/raw write of %s.Data#%d not for an attribute", load.FuncName(fd), tok, n), c.pos(call), "in a case of another token kind", "the raw bytes of the token are written whatever its kind: for an attribute they have been rewritten in place by TokenBuffer.read and contain the tail of the old value (`title=\"a   b\"` → `title=\"a b b\"`)")
+			})
+		}
+	}
+	c.R.Floor(rule, "raw token writes in package svg", n, 5)
 }
